@@ -54,8 +54,8 @@ int libwifi_parse_radiotap_info(struct libwifi_radiotap_info *info, const unsign
     while (!ret) {
         switch (it.this_arg_index) {
             case IEEE80211_RADIOTAP_CHANNEL:
-                info->channel.freq = le16toh(*(uint16_t *) it.this_arg);
-                info->channel.flags = le16toh(*(uint16_t *) (it.this_arg + 2));
+                info->channel.freq = get_unaligned_le16(it.this_arg);
+                info->channel.flags = get_unaligned_le16(it.this_arg + 2);
 
                 // Handle band and channel
                 if (info->channel.freq >= 2412 && info->channel.freq <= 2484) {
@@ -122,7 +122,9 @@ int libwifi_parse_radiotap_info(struct libwifi_radiotap_info *info, const unsign
                 info->tx_power = *it.this_arg;
                 break;
             case IEEE80211_RADIOTAP_TIMESTAMP:
-                info->timestamp.timestamp = le64toh(*(uint64_t *) it.this_arg);
+                uint64_t timestamp = 0;
+                memcpy(&timestamp, it.this_arg, sizeof(timestamp));
+                info->timestamp.timestamp = le64toh(timestamp);
                 info->timestamp.accuracy = get_unaligned_le16(it.this_arg + 8);
                 info->timestamp.unit = *(uint8_t *) (it.this_arg + 10);
                 info->timestamp.flags = *(uint8_t *) (it.this_arg + 11);
